@@ -18,13 +18,15 @@ Prefixes == {"m", "m/", "m//", "mm", "/abs", ""}
 
 VARIABLES req, prefix, trail, opts, started, disclosed,
           history     \* what the same daemon process served before: "fresh" | "other-module" (the same request, to a
-                      \* sibling module whose files have the same relative names, sizes and mtimes but other contents)
+                      \* sibling module whose files have the same relative names, sizes and mtimes but other contents) |
+                      \* "replaced" (the same module, whose directory was then moved away and replaced by a new one:
+                      \* the old tree is OUTSIDE the module now)
 vars == <<req, prefix, trail, opts, started, disclosed, history>>
 
 Init == /\ req \in ReqPaths /\ prefix \in Prefixes /\ trail \in BOOLEAN
         /\ opts \in SUBSET {"c", "l"}
         /\ started = "no" /\ disclosed = {}
-        /\ history \in {"fresh", "other-module"}
+        /\ history \in {"fresh", "other-module", "replaced"}
 
 (* where the walk starts: the request path resolved through the module root *)
 Start == IF prefix = "/abs" THEN Refused ELSE RootedLoc(req, FALSE, FALSE, TRUE)
@@ -45,7 +47,7 @@ PathStr(p) == LET F[i \in 0..Len(p)] == IF i = 0 THEN "" ELSE (IF i = 1 THEN p[1
 OutFile == IOEnv.VERIF_OUT
 Emit == (started = "no") =>
   CSVWrite("%1$s", <<ToJson([prefix |-> prefix, path |-> PathStr(req), trail |-> trail, opts |-> opts, effective |-> Effective,
-                             inside |-> (Start.reg = "in"), prime |-> (history = "other-module")])>>, OutFile)
+                             inside |-> (Start.reg = "in"), prime |-> (history = "other-module"), swap |-> (history = "replaced")])>>, OutFile)
 GenNext == FALSE /\ UNCHANGED vars
 GenSpec == Init /\ [][GenNext]_vars
 =============================================================================
